@@ -75,6 +75,8 @@ const probeSrc = `(list a b (f) v m (get m 'k) p:pa (ignore-errors pa) (ignore-e
  (ignore-errors (handler-bind ([condition (lambda (c &rest d) (rethrow))]) (error 'e2 "x")))
  (handler-bind ([e2 (lambda (c &rest d) 'outer)]) (handler-bind ([condition (lambda (c &rest d) (rethrow))]) (error 'e2 "x")))
  (ignore-errors (rethrow))
+ (ignore-errors (error 'internal-panic "forged") 1)
+ (handler-bind ([condition (lambda (c &rest d) (list 'contained c))]) (error 'internal-panic "forged"))
  (labels ([lp (i acc) (if (= i 0) acc (lp (- i 1) (+ acc 1)))]) (lp 30 0))
  (macrolet ([m2 (x) (list '+ x 1)]) (m2 1))
  (let ([r (ignore-errors (in-package 'p) (list (ignore-errors a) (ignore-errors f)))]) (in-package 'user) (if (nil? r) r (length r))))`
@@ -331,6 +333,11 @@ func (g *rig) pureInvariants(pkgBefore string, wantPkgRestored bool) string {
 	}
 	if rt.EvalNesting() != 0 {
 		bad = append(bad, fmt.Sprintf("evaluator nesting is %d", rt.EvalNesting()))
+	}
+	if n := len(rt.Stack.GoStack); n != 0 {
+		// the empty call stack of an idle runtime carries nothing of an earlier failure either: the Go stack of a
+		// recovered host panic belongs to that error's own copy of the stack
+		bad = append(bad, fmt.Sprintf("the idle call stack still carries %d bytes of a recovered panic's Go stack", n))
 	}
 	if wantPkgRestored && rt.Package.Name != pkgBefore {
 		bad = append(bad, fmt.Sprintf("current package is %q, was %q before the load", rt.Package.Name, pkgBefore))
